@@ -137,7 +137,17 @@ class CacheStore(object):
         if self._cache_is_valid(store_filename, filename):
             return None
 
-        tmp_fd, tmp_filename = tempfile.mkstemp(prefix='g-ir-scanner-cache-')
+        # Create the temporary file next to the entry, so that moving it into
+        # place is an atomic rename and never a copy into a live entry.
+        try:
+            tmp_fd, tmp_filename = tempfile.mkstemp(prefix='g-ir-scanner-cache-',
+                                                    dir=self._directory)
+        except (IOError, OSError) as e:
+            # Permission denied, read-only file system
+            if e.errno in (errno.EACCES, errno.EROFS):
+                return
+            else:
+                raise
         try:
             with os.fdopen(tmp_fd, 'wb') as tmp_file:
                 pickle.dump(data, tmp_file)
@@ -152,8 +162,9 @@ class CacheStore(object):
         try:
             shutil.move(tmp_filename, store_filename)
         except (IOError, OSError) as e:
-            # Permission denied
-            if e.errno == errno.EACCES:
+            # Permission denied, or the temporary file was purged by a
+            # scanner of another version cleaning the cache
+            if e.errno in (errno.EACCES, errno.ENOENT):
                 self._remove_filename(tmp_filename)
             else:
                 raise
